@@ -43,7 +43,7 @@ func genTLS() {
 		panic(err)
 	}
 	cert := tls.Certificate{Certificate: [][]byte{der}, PrivateKey: key}
-	serverTLS = &tls.Config{Certificates: []tls.Certificate{cert}}
+	serverTLS = &tls.Config{Certificates: []tls.Certificate{cert}, SessionTicketsDisabled: true}
 	clientTLS = &tls.Config{InsecureSkipVerify: true, ServerName: "localhost"}
 }
 
